@@ -10,7 +10,8 @@
 // v.os.*, x.Close(), v.lockfile, v.unlockfile), turns `defer <fs call>` into
 // `defer func() { verifPoint(...); <fs call> }()`, and wraps the destination of WriteBlock's io.Copy so
 // that every individual write of the copy loop is preceded by a yield point.  Nothing else is
-// changed.  verifPoint/verifWriter are defined by the harness (zz_verif_ks_hook_test.go).
+// changed, except that every instrumented method starts with `defer verifEnter("<Method>")()`.
+// verifPoint/verifWriter/verifEnter are defined by the harness (zz_verif_ks_hook_test.go).
 // Exit status 2 = an expected method or yield point is missing (broken correspondence).
 package main
 
@@ -268,6 +269,12 @@ func main() {
 		in := &inst{method: fd.Name.Name}
 		in.block(fd.Body)
 		points[fd.Name.Name] = in.points
+		// defer verifEnter("<Method>")() as the first statement: lets the harness wait until no
+		// instrumented method is running any more (WriteBlock goes on in the background after a
+		// cancelled request)
+		enter := &ast.DeferStmt{Call: &ast.CallExpr{Fun: &ast.CallExpr{Fun: ast.NewIdent("verifEnter"),
+			Args: []ast.Expr{&ast.BasicLit{Kind: token.STRING, Value: strconv.Quote(fd.Name.Name)}}}}}
+		fd.Body.List = append([]ast.Stmt{enter}, fd.Body.List...)
 	}
 	bad := false
 	for m, req := range required {
